@@ -39,11 +39,10 @@ def _squash(s):
     return "".join((s or "").split())
 
 
-def _load_yaml(path):
+def _load_yaml(repo, relpath):
     import yaml
 
-    with open(path, encoding="utf-8") as handle:
-        return yaml.safe_load(handle)
+    return yaml.safe_load(repo.read_text(relpath))
 
 
 def function_classes(repo):
@@ -57,7 +56,7 @@ def function_classes(repo):
 
 def check_functions(ctx):
     repo = ctx.repo
-    y = _load_yaml(os.path.join(repo.root, "secsgem", "secs", "functions.yaml"))
+    y = _load_yaml(repo, os.path.join("secsgem", "secs", "functions.yaml"))
     classes = function_classes(repo)
     ctx.floor("function classes", len(classes), 134)
     ykeys = {}
@@ -141,7 +140,7 @@ def _type_names(expr):
 
 def check_data_items(ctx):
     repo = ctx.repo
-    y = _load_yaml(os.path.join(repo.root, "secsgem", "secs", "data_items.yaml"))
+    y = _load_yaml(repo, os.path.join("secsgem", "secs", "data_items.yaml"))
     classes = data_item_classes(repo)
     ctx.floor("data item classes", len(classes), 124)
     ok = set(y) == set(classes)
